@@ -22,6 +22,7 @@ Fixpoint ty_eqb (a b : ty) {struct a} : bool :=
          end) xs ys
   | TArr x, TArr y => ty_eqb x y
   | TSnap x, TSnap y => ty_eqb x y
+  | TBox x, TBox y => ty_eqb x y
   | _, _ => false
   end.
 
@@ -49,6 +50,7 @@ Fixpoint vtb (t : ty) (v : value) {struct t} : bool :=
       (fix go (l : list value) : bool :=
          match l with [] => true | v :: r => vtb t v && go r end) l
   | TSnap t, _ => vtb t v
+  | TBox t, _ => vtb t v
   | _, _ => false
   end.
 
@@ -110,6 +112,19 @@ Definition cast_ty (k : castk) (from to : ty) : option ty :=
   | CTry, TInt _, TInt _ => Some (TOption to)
   | CTry, TFelt, TInt _ => Some (TOption to)
   | _, _, _ => None
+  end.
+
+Definition arith_ty (k : arithk) (o : binop) (t : ty) : option ty :=
+  match t with
+  | TInt i =>
+      if match o with Add | Sub => true | Mul => negb (isigned i) | _ => false end then
+        Some (match k with
+              | AWrapping | ASaturating => t
+              | AOverflowing => TTup [t; TBool]
+              | AChecked => TOption t
+              end)
+      else None
+  | _ => None
   end.
 
 (* element type of an array or of a snapshot of an array *)
@@ -312,6 +327,21 @@ Section Check.
         match tc L G e1 with Some t => Some (TSnap t) | None => None end
     | EDesnap e1 =>
         match tc L G e1 with Some (TSnap t) => Some t | _ => None end
+    | EBox e1 =>
+        match tc L G e1 with Some t => Some (TBox t) | None => None end
+    | EUnbox e1 =>
+        match tc L G e1 with Some (TBox t) => Some t | _ => None end
+    | ELetTup xs e1 body =>
+        match tc L G e1 with
+        | Some (TTup ts) =>
+            if Nat.eqb (length xs) (length ts) then tc L (rev (combine xs ts) ++ G) body else None
+        | _ => None
+        end
+    | EArith k o t e1 e2 =>
+        match tc L G e1, tc L G e2 with
+        | Some t1, Some t2 => if ty_eqb t1 t && ty_eqb t2 t then arith_ty k o t else None
+        | _, _ => None
+        end
     end.
 End Check.
 
